@@ -33,6 +33,8 @@ def run_demo(wt, d):
     themselves): copy the directory there, run, remove."""
     env = dict(os.environ, CARGO_NET_OFFLINE="true", RUST_BACKTRACE="0")
     k = os.path.basename(d.rstrip("/")).split("-")[-1]
+    if os.path.exists(os.path.join(d, ".origname")):      # directory name the demo was written under
+        k = open(os.path.join(d, ".origname")).read().strip().replace("seed", "")
     local = os.path.join(wt, "seed%s" % k)
     sh("rm -rf %s && cp -r %s %s" % (local, d, local))
     try:
